@@ -66,12 +66,12 @@ def parse(pat):
             alts = []
             i = 0
             while i < len(body):
-                if i + 2 < len(body) and body[i + 1] == "-":
-                    alts.append(z3.Range(body[i], body[i + 2]))
-                    i += 3
-                elif body[i] == "\\":
+                if body[i] == "\\":
                     alts.append(_digit() if body[i + 1] == "d" else z3.Re(z3.StringVal(body[i + 1])))
                     i += 2
+                elif i + 2 < len(body) and body[i + 1] == "-":
+                    alts.append(z3.Range(body[i], body[i + 2]))
+                    i += 3
                 else:
                     alts.append(z3.Re(z3.StringVal(body[i])))
                     i += 1
@@ -184,8 +184,7 @@ def subject_language(I, s):
     """regular language known to contain the subject: literal pieces and pieces whose language the
     formatting model recorded; None when some piece is unknown"""
     ann = I.__dict__.get("str_lang", {})
-    s = S(s)
-    pieces = list(s.children()) if (z3.is_app(s) and s.decl().kind() == z3.Z3_OP_SEQ_CONCAT) else [s]
+    pieces = pieces_of(s)
     out = []
     for p in pieces:
         if z3.is_string_value(p):
@@ -227,6 +226,10 @@ def match_symbolic(I, pat, s):
         return None
     if count_groups(items) == 0:
         return []
+    if decided is True:
+        al = align(I, items, anchored, s)
+        if al is not None:
+            return al
     if any(isinstance(x, Rep) and count_groups([x.item]) for x in items) or \
             any(isinstance(x, Group) and count_groups(x.items) for x in items):
         raise OutOfReach("nested / repeated capture groups")
@@ -242,4 +245,106 @@ def match_symbolic(I, pat, s):
     if anchored:
         P.assume(z3.Or(tail == z3.StringVal(""), tail == z3.StringVal("\n")))
     P.assume(s == z3.Concat(*(segs + [tail])))
+    return groups
+
+
+def pieces_of(s):
+    """the concatenated pieces of a string term, flattened (z3 nests concatenations)"""
+    s = S(s)
+    out = []
+
+    def go(t):
+        if z3.is_app(t) and t.decl().kind() == z3.Z3_OP_SEQ_CONCAT:
+            for c in t.children():
+                go(c)
+        else:
+            out.append(t)
+    go(s)
+    return out
+
+
+def piece_language(I, p):
+    ann = I.__dict__.get("str_lang", {})
+    if z3.is_string_value(p):
+        return z3.Re(p)
+    if p.get_id() in ann and ann[p.get_id()][0].eq(p):
+        return ann[p.get_id()][1]
+    return None
+
+
+def strip_by_language(I, s, ws):
+    """str.strip() of a text whose pieces have recorded languages: edge pieces that can only be whitespace are
+    dropped; if what remains provably neither starts nor ends with whitespace it is the result.  None: not decided."""
+    ps = pieces_of(s)
+    langs = [piece_language(I, p) for p in ps]
+    if any(l is None for l in langs):
+        return None
+    anyc = z3.Star(ANYCHAR)
+    wss = z3.Star(ws)
+    lo, hi = 0, len(ps)
+    while lo < hi and regex_empty(z3.Intersect(langs[lo], z3.Complement(wss))):
+        lo += 1
+    while hi > lo and regex_empty(z3.Intersect(langs[hi - 1], z3.Complement(wss))):
+        hi -= 1
+    if lo == 0 and hi == len(ps):
+        whole = z3.Concat(*langs) if len(langs) > 1 else langs[0]
+    elif lo == hi:
+        return z3.StringVal("")
+    else:
+        whole = z3.Concat(*langs[lo:hi]) if hi - lo > 1 else langs[lo]
+    # the remainder must be non-empty with non-whitespace edges (or the empty string)
+    bad = z3.Union(z3.Concat(ws, anyc), z3.Concat(anyc, ws))
+    if not regex_empty(z3.Intersect(whole, bad)):
+        return None
+    rest = ps[lo:hi]
+    return z3.Concat(*rest) if len(rest) > 1 else rest[0]
+
+
+def included(a, b):
+    return regex_empty(z3.Intersect(a, z3.Complement(b)))
+
+
+def align(I, items, anchored, s):
+    """Group values of a match that is known to succeed, when the subject is a concatenation of pieces with recorded
+    languages and each top-level pattern item covers a whole number of consecutive pieces (language inclusion, checked).
+    The patterns of the repository are unambiguous (runs over one alphabet delimited by characters outside it), so a
+    valid assignment is the one CPython reports (assumed; sampled natively by the number oracle).  None: no such alignment."""
+    if any(isinstance(x, Group) and count_groups(x.items) for x in items) or any(isinstance(x, Rep) and count_groups([x.item]) for x in items):
+        return None
+    ps = pieces_of(s)
+    langs = [piece_language(I, p) for p in ps]
+    if any(l is None for l in langs):
+        return None
+    eps = z3.Re(z3.StringVal(""))
+    tail_lang = z3.Option(z3.Re(z3.StringVal("\n"))) if anchored else z3.Star(ANYCHAR)
+    found = []
+
+    def cat(a, b):
+        if b <= a:
+            return eps
+        return z3.Concat(*langs[a:b]) if b - a > 1 else langs[a]
+
+    def go(k, pos, acc):
+        if len(found) > 1:
+            return
+        if k == len(items):
+            if included(cat(pos, len(ps)), tail_lang):
+                found.append(list(acc))
+            return
+        r = to_re(items[k])
+        for end in range(pos, len(ps) + 1):
+            if included(cat(pos, end), r):
+                acc.append((pos, end))
+                go(k + 1, end, acc)
+                acc.pop()
+    go(0, 0, [])
+    # pieces that may be empty admit several assignments differing only in where an empty piece goes: same group values
+    if not found:
+        return None
+    groups = []
+    for x, (a, b) in zip(items, found[0]):
+        if isinstance(x, Group):
+            sub = ps[a:b]
+            t = z3.StringVal("") if not sub else (z3.Concat(*sub) if len(sub) > 1 else sub[0])
+            groups.append(Sym(VStr(t)))
     return groups
